@@ -329,6 +329,10 @@ func init() {
 	reg("(*sync.Mutex).Lock", func(x *Exec, fr *frame, args []Value) Value { x.mutexLock(fr, args[0], false); return nil })
 	reg("(*sync.Mutex).Unlock", func(x *Exec, fr *frame, args []Value) Value { x.mutexUnlock(fr, args[0], false); return nil })
 	reg("(*sync.Mutex).TryLock", func(x *Exec, fr *frame, args []Value) Value { return x.mutexTryLock(fr, args[0]) })
+	// Go 1.25: sync.Map's HashTrieMap locks internal/sync.Mutex directly
+	reg("(*internal/sync.Mutex).Lock", func(x *Exec, fr *frame, args []Value) Value { x.mutexLock(fr, args[0], false); return nil })
+	reg("(*internal/sync.Mutex).Unlock", func(x *Exec, fr *frame, args []Value) Value { x.mutexUnlock(fr, args[0], false); return nil })
+	reg("(*internal/sync.Mutex).TryLock", func(x *Exec, fr *frame, args []Value) Value { return x.mutexTryLock(fr, args[0]) })
 	reg("(*sync.RWMutex).Lock", func(x *Exec, fr *frame, args []Value) Value { x.mutexLock(fr, args[0], false); return nil })
 	reg("(*sync.RWMutex).Unlock", func(x *Exec, fr *frame, args []Value) Value { x.mutexUnlock(fr, args[0], false); return nil })
 	reg("(*sync.RWMutex).RLock", func(x *Exec, fr *frame, args []Value) Value { x.mutexLock(fr, args[0], true); return nil })
